@@ -15,6 +15,7 @@ CONSTANTS
  MaxSched = %(MaxSched)d
  MaxGen = %(MaxGen)d
  CfgIds = {%(CfgIds)s}
+ Modes = {%(Modes)s}
  Dump = "%(Dump)s"
 INVARIANT InvStateOK
 ACTION_CONSTRAINT ActionProps
@@ -25,7 +26,8 @@ CHECK_DEADLOCK FALSE
 
 def mc_core(params, dump='none', module='MC_core', workers=16, timeout=1800):
     """dump: none | edges (transition tour, history hidden) | hist (all histories)"""
-    p = dict(MaxEntries=3, MaxDepth=2, MaxLen=3, MaxRefuse=1, MaxSched=0, MaxGen=1, CfgIds='2')
+    p = dict(MaxEntries=3, MaxDepth=2, MaxLen=3, MaxRefuse=1, MaxSched=0, MaxGen=1, CfgIds='2',
+             Modes='"lazy"')
     p.update(params)
     p['Dump'] = dump
     extra = []
@@ -39,4 +41,21 @@ def mc_core(params, dump='none', module='MC_core', workers=16, timeout=1800):
     out, stats = tlc.run_tlc(module, MC_CORE_CFG % p, workers=workers, timeout=timeout)
     tlc.need_ok(out, stats, module)
     hists = [v for (tag, v) in tlc.tagged_lines(out) if tag == 'HIST']
+    return hists, stats
+
+
+def simulate(params, num, seed, module='MC_core', workers=8, timeout=600):
+    """random behaviours of exactly MaxLen+1 calls (TLC -simulate), printed when complete."""
+    p = dict(MaxEntries=4, MaxDepth=2, MaxLen=8, MaxRefuse=2, MaxSched=0, MaxGen=2, CfgIds='2',
+             Modes='"lazy"')
+    p.update(params)
+    p['Dump'] = 'final'
+    p['extra'] = 'CONSTRAINT DumpFinal'
+    per = max(1, num // workers)
+    out, stats = tlc.run_tlc(module, MC_CORE_CFG % p, workers=workers, timeout=timeout,
+                             simulate='num=%d' % per,
+                             extra=['-depth', str(p['MaxLen'] + 2), '-seed', str(seed)])
+    hists = [v for (tag, v) in tlc.tagged_lines(out) if tag == 'HIST']
+    if stats.get('exit') not in (0,) and not hists:
+        tlc.need_ok(out, stats, module + ' -simulate')
     return hists, stats
